@@ -317,6 +317,8 @@ func (g *Gen) instrWritesIn(in ssa.Instruction, ws *WriteSet, scope map[*ssa.Bas
 		if rng, ok := in.Iter.(*ssa.Range); ok {
 			if h := g.seenHeap(rng); h != "" {
 				ws.Names[h] = true
+				n, key, pos := g.seenSeqHeaps(rng)
+				ws.Names[n], ws.Names[key], ws.Names[pos] = true, true, true
 			}
 		}
 	case *ssa.MakeClosure:
